@@ -497,6 +497,59 @@ func subtableKinds(info *gtab.Info) string {
 	return strings.Join(ks, ",")
 }
 
+// growthBound is an upper bound for the number of glyphs the given lookups can
+// make of a text of n glyphs: a multiple substitution multiplies the length
+// by the longest replacement, a contextual lookup - whose up to 64 nested
+// actions per position may each be such a substitution - by 1 + 64 x (longest
+// replacement - 1).  Beyond a few million glyphs "terminates" is true but not
+// observable within any step budget (and the engine's stack bookkeeping is
+// quadratic in the length), so such texts are not applied (counted, not judged).
+func growthBound(info *gtab.Info, lookups []gtab.LookupIndex, n int) float64 {
+	maxRepl := 1
+	for _, lt := range info.LookupList {
+		if lt == nil {
+			continue
+		}
+		for _, st := range lt.Subtables {
+			if s, ok := st.(*gtab.Gsub2_1); ok {
+				for _, r := range s.Repl {
+					if len(r) > maxRepl {
+						maxRepl = len(r)
+					}
+				}
+			}
+		}
+	}
+	bound := float64(n)
+	if bound < 1 {
+		bound = 1
+	}
+	for _, li := range lookups {
+		if int(li) >= len(info.LookupList) || info.LookupList[li] == nil {
+			continue
+		}
+		f := 1.0
+		for _, st := range info.LookupList[li].Subtables {
+			switch s := st.(type) {
+			case *gtab.Gsub2_1:
+				for _, r := range s.Repl {
+					if float64(len(r)) > f {
+						f = float64(len(r))
+					}
+				}
+			case *gtab.SeqContext1, *gtab.SeqContext2, *gtab.SeqContext3, *gtab.ChainedSeqContext1, *gtab.ChainedSeqContext2, *gtab.ChainedSeqContext3:
+				if g := 1 + 64*float64(maxRepl-1); g > f {
+					f = g
+				}
+			}
+		}
+		bound *= f
+	}
+	return bound
+}
+
+const growthLimit = 2e6
+
 // applyOnce runs one Apply with the standard oracles and returns the result.
 func applyOnce(c *wk.Case, what string, ctx *gtab.Context, in []glyph.Info, order uint64) []glyph.Info {
 	var out []glyph.Info
@@ -614,6 +667,10 @@ func run(c *wk.Case) {
 				in[i] = glyph.Info{GID: gid, Text: []rune{rune(0x1000 + i)}}
 			}
 		}
+		if growthBound(info, lookups, len(in)) > growthLimit {
+			c.Count("texts_not_applied:_growth_bound_beyond_2e6_glyphs", 1)
+			continue
+		}
 		c.Logf("call %d: Apply([%s]) lookups %v", k, seqString(in), lookups)
 		got := applyOnce(c, "Context.Apply", reused, in, 0)
 		fresh := applyOnce(c, "Context.Apply(fresh)", gtab.NewContext(info.LookupList, gd, lookups), in, 0)
@@ -666,6 +723,14 @@ func run(c *wk.Case) {
 		}
 		reusedL := mk()
 		if reusedL == nil {
+			return
+		}
+		var every []gtab.LookupIndex
+		for i := range info.LookupList {
+			every = append(every, gtab.LookupIndex(i))
+		}
+		if growthBound(info, every, 10) > growthLimit {
+			c.Count("layouter_histories_not_run:_growth_bound_beyond_2e6_glyphs", 1)
 			return
 		}
 		for k := t.Range(2, 5); k > 0; k-- {
